@@ -14,7 +14,8 @@ META = {
         "unwrap/expect/panic-family sites in non-test code against a reviewed table with local proofs; (index) census of "
         "index/slice expressions against the frozen reviewed baseline; (rerender) no AST child is rendered twice on one path "
         "of a Display impl (exponential printing); (progress) the occurrence loop of the sequence matcher ends after one "
-        "zero-width iteration. Arithmetic overflow in the validators, time bounds and absolute stack depth are not decided."),
+        "zero-width iteration; (arith) census of arithmetic expressions against a reviewed classification (structural / bounded / "
+        "float / unchecked value arithmetic). Time bounds and absolute stack depth are not decided."),
     "assumptions": ["dependencies return Err instead of panicking (trusted)", "name-based call resolution covers free functions and self methods (strong edges)"],
     "trusted_base": ["syn 2 parser", "lib/cg.py", "lib/absint.py", "spec/c05_*.json reviewed tables"],
     "technique": "static analysis: taint via abstract interpretation, call-graph cycle rule, census against reviewed tables, path rule on Display bodies",
@@ -570,7 +571,50 @@ def r_progress(ctx):
                               % (w, r["occur"], r["verdict"], r["expected"]))
 
 
+ARITH_OPS = ("+", "-", "*", "<<", "+=", "-=", "*=", "<<=")
+
+
+def arith_sites(f):
+    out = {}
+    where = {}
+    for file in sorted(f.files):
+        if not file.startswith("src/") or file in ("src/parser_tests.rs",):
+            continue
+        for fi in f.fns(file):
+            if fi.in_test:
+                continue
+            for x in vf.walk(fi.node):
+                if x["k"] == "bin" and x["op"] in ARITH_OPS and not (x["a"]["k"] == "lit" and x["b"]["k"] == "lit"):
+                    key = "%s|%s|%s" % (file, fi.qual, vf.src(x)[:90])
+                    out[key] = out.get(key, 0) + 1
+                    where.setdefault(key, (file, x["l"]))
+    return out, where
+
+
+def r_arith(ctx):
+    rid = "C05.arith"
+    ctx.rule(rid, "every integer/float arithmetic expression (+ - * << and their assigning forms) in non-test code of the cddl crate is in the "
+                  "reviewed table spec/c05_arith_reviewed.json, classified as structural (counters, lengths and positions bounded by the "
+                  "size of data already in memory), widened/bounded (operands range-checked or widened first), float (cannot panic) or "
+                  "value arithmetic on document/schema numbers; unchecked value arithmetic panics in overflow-checked builds and wraps "
+                  "otherwise, so a site of that class, or any site not in the table, is reported", floor=80)
+    rv = json.load(open(os.path.join(vf.VERIF, "spec", "c05_arith_reviewed.json")))
+    sites, where = arith_sites(ctx.facts)
+    for key, n in sorted(sites.items()):
+        file, line = where[key]
+        ent = rv["sites"].get(key)
+        ctx.site(rid, key, file, line, {"count": n, "class": ent["class"] if ent else None})
+        if ent is None:
+            ctx.violation(rid, key, file, line, "arithmetic site not in the reviewed table (new, or its text changed): classify it — value arithmetic on "
+                          "document or schema numbers must be checked_*, saturating_* or widened")
+        elif n > ent.get("count", 1):
+            ctx.violation(rid, key + "|count", file, line, "%d occurrences, %d reviewed" % (n, ent.get("count", 1)))
+        elif ent["class"] == "unchecked-value":
+            ctx.violation(rid, key, file, line, "unchecked arithmetic on a document/schema number: %s" % ent["why"])
+
+
 def run(ctx):
+    ctx.guarded("C05.arith", r_arith)
     ctx.guarded("C05.progress", r_progress)
     ctx.guarded("C05.alloc", r_alloc)
     ctx.guarded("C05.recursion", r_recursion)
